@@ -4795,7 +4795,17 @@ impl M2Model {
 
                 use std::collections::hash_map::Entry;
 
+                // The order (ranges, then timestamps, per event) must match the order in
+                // which the data is written below
                 for event_raw in &self.raw_data.event_data {
+                    // Map ranges offset (skip if already mapped - shared data)
+                    if !event_raw.ranges.is_empty()
+                        && let Entry::Vacant(e) = offset_map.entry(event_raw.original_ranges_offset)
+                    {
+                        e.insert(event_data_offset);
+                        event_data_offset += event_raw.ranges.len() as u32;
+                    }
+
                     // Map timestamps offset (skip if already mapped - shared data)
                     if !event_raw.timestamps.is_empty()
                         && let Entry::Vacant(e) =
